@@ -153,7 +153,7 @@ PROFILES = {
         'coverage': c08_coverage,
         'warnings': c08_warnings,
         'level': 'exploration',
-        'quick_runs': 4250,
-        'thorough_runs': 153500,
+        'quick_runs': 4340,
+        'thorough_runs': 153600,
     },
 }
